@@ -303,6 +303,43 @@ fn main() {
         return;
     }
 
+
+    // ---- corpus first: minimised past disagreements, `<driver request> TAB <source>` per line
+    {
+        let dir = concat!(env!("CARGO_MANIFEST_DIR"), "/../corpus/C08");
+        let mut reqs = vec![];
+        let mut srcs = vec![];
+        if let Ok(rd) = std::fs::read_dir(dir) {
+            let mut files: Vec<_> = rd.filter_map(|e| e.ok()).map(|e| e.path()).collect();
+            files.sort();
+            for f in files {
+                if let Ok(text) = std::fs::read_to_string(&f) {
+                    for line in text.lines() {
+                        if line.starts_with('#') || !line.contains('\t') {
+                            continue;
+                        }
+                        let mut it = line.splitn(2, '\t');
+                        reqs.push(it.next().unwrap().to_string());
+                        srcs.push(it.next().unwrap().to_string());
+                    }
+                }
+            }
+        }
+        let resp = run_driver(&args.driver, &reqs);
+        for i in 0..reqs.len() {
+            let rust = Interp::new().eval(&srcs[i]).class();
+            rep.case(&srcs[i], true);
+            rep.arm("corpus");
+            let parts: Vec<&str> = resp[i].split('\t').collect();
+            let full = format!("{}\nrequest: {}", srcs[i], reqs[i]);
+            if parts.len() < 2 {
+                rep.judge("corpus", &full, &rust, &resp[i], &resp[i]);
+            } else {
+                rep.judge("corpus", &full, &rust, parts[0], parts[1]);
+            }
+        }
+    }
+
     let thorough = args.tier == "thorough";
     let mut rng = Rng::new(args.seed);
     let (n_rand_nums, n_rand_seqs, n_sorts, n_ext) = if thorough { (230, 60, 200_000, 60_000) } else { (34, 12, 6_000, 3_000) };
